@@ -971,4 +971,55 @@ theorem decls_resolve {a : Ast} {m : Module} (hs : Supported a = true) (hp : par
         · simp at hrest
         · cases mx <;> simp at hrest
 
+/-! ### declarations: resolve, and carry the parameter iff used -/
+
+theorem declarations_fit {a : Ast} {m : Module} (hs : Supported a = true) (hp : paramsOk a = true) (hu : paramsUsed a = true)
+    (hg : generateModule a = .ok m) : m.types.all (declFits m) = true := by
+  have C := fitsCtx_of_supported hs hp hg
+  have hres := decls_resolve hs hp hg
+  obtain ⟨_, htypes, _, _, _⟩ := Supported.facts hs
+  rw [List.all_eq_true] at hres ⊢
+  intro d hd
+  have hr := hres d hd
+  rw [C.types_eq] at hd
+  simp only [emitTypes, List.mem_append, List.mem_filterMap] at hd
+  rcases hd with ⟨kv, _, hkv⟩ | ⟨kv, hkvm, hkv⟩
+  · obtain ⟨k, c⟩ := kv
+    cases c <;> simp only at hkv <;> cases hkv
+    rfl
+  · have hok : typeOk a kv.2 = true := (List.all_eq_true.mp htypes) kv hkvm
+    have hused := (List.all_eq_true.mp hu) kv hkvm
+    have hkey : kv.1 = kv.2.rustName := C.keys kv hkvm
+    obtain ⟨k, ty⟩ := kv
+    cases ty with
+    | struct s =>
+      simp only [emitTypeDecl] at hkv; cases hkv
+      simp only [declTypesResolve] at hr
+      simp only [AstType.rustName] at hkey
+      simp only [beq_iff_eq] at hused
+      simp only [declFits, Bool.and_eq_true, beq_iff_eq]
+      refine ⟨hr, ?_⟩
+      rw [List.any_map, ← hkey]
+      exact hused.symm
+    | union u =>
+      simp only [emitTypeDecl] at hkv; cases hkv
+      have hr' : (unionVariants a u).all (fun v => match v.2 with | some t => t.wellFormed m | none => true) = true := hr
+      simp only [AstType.rustName] at hkey
+      simp only [beq_iff_eq] at hused
+      show declFits m (.union u.name (a.isGeneric u.name) (unionVariants a u)) = true
+      simp only [declFits, Bool.and_eq_true, beq_iff_eq]
+      refine ⟨hr', ?_⟩
+      rw [← hkey]
+      exact hused.symm
+    | enum e => simp only [emitTypeDecl] at hkv; cases hkv; rfl
+    | typedef td =>
+      simp only [typeOk] at hok
+      obtain ⟨sp, hdcl⟩ := emitTypeDecl_typedef (a := a) hok
+      rw [hdcl] at hkv; cases hkv
+      simp only [declTypesResolve] at hr
+      simp only [declFits, Bool.and_eq_true, beq_iff_eq]
+      refine ⟨hr, ?_⟩
+      simp only [typedefInner]
+      cases ho : td.target.isOpaque <;> cases hgn : a.targetGeneric td.target <;> cases td.alias <;> simp [TyExpr.usesT]
+
 end Fx
